@@ -1,0 +1,81 @@
+// Copyright (c) Tailscale Inc & AUTHORS
+// SPDX-License-Identifier: BSD-3-Clause
+
+//go:build verif
+
+package verifhook
+
+import (
+	"cmp"
+	"iter"
+	"slices"
+)
+
+// Locker is the subset of sync.Mutex the hooks need.
+type Locker interface {
+	Lock()
+	Unlock()
+	TryLock() bool
+}
+
+// The hook variables are nil unless a simulation harness installs them.
+// They are only ever reached from copies of the sources rewritten by the
+// harness (via go build -overlay); the sources in this module do not call
+// into this package.
+var (
+	// OnLock, if set, must return with l held by the calling goroutine.
+	OnLock func(l Locker, site string)
+	// OnUnlock, if set, must release l.
+	OnUnlock func(l Locker, site string)
+	// OnRange, if set, returns the order in which n sorted map keys are
+	// visited (a permutation of 0..n-1), or nil for sorted order.
+	OnRange func(n int, site string) []int
+)
+
+// Lock acquires l, giving the harness a chance to schedule first.
+func Lock(l Locker, site string) {
+	if f := OnLock; f != nil {
+		f(l, site)
+		return
+	}
+	l.Lock()
+}
+
+// Unlock releases l.
+func Unlock(l Locker, site string) {
+	if f := OnUnlock; f != nil {
+		f(l, site)
+		return
+	}
+	l.Unlock()
+}
+
+// RangeMap iterates m in an order chosen by the harness (sorted by key when
+// the harness expresses no preference), so that Go's randomized map
+// iteration order becomes a controlled input of a simulated run.
+func RangeMap[M ~map[K]V, K cmp.Ordered, V any](m M, site string) iter.Seq2[K, V] {
+	return func(yield func(K, V) bool) {
+		keys := make([]K, 0, len(m))
+		for k := range m {
+			keys = append(keys, k)
+		}
+		slices.Sort(keys)
+		var perm []int
+		if f := OnRange; f != nil {
+			perm = f(len(keys), site)
+		}
+		for i := range keys {
+			k := keys[i]
+			if perm != nil {
+				k = keys[perm[i]]
+			}
+			v, ok := m[k]
+			if !ok {
+				continue // deleted during iteration, as for a native range
+			}
+			if !yield(k, v) {
+				return
+			}
+		}
+	}
+}
